@@ -422,6 +422,7 @@ def generate(vc_path, out_dir, canary=False, lenient=False):
     block_file = None
     erasure = []       # (fn name, rewritten source text)
     item_subs = {}
+    unclaimed = []
     i = 0
     out.add("// GENERATED by verif/tools/gen.py from %s and the current /repo sources. Do not edit.\n" % os.path.basename(vc_path))
     out.add("#![allow(unused_imports, unused_variables, unused_mut, dead_code, non_snake_case, unused_assignments, unused_parens, non_camel_case_types, unreachable_code, unused_braces)]\n")
@@ -640,6 +641,10 @@ def generate(vc_path, out_dir, canary=False, lenient=False):
                     fs.subs.append((m.group(1), m.group(2).replace("\\/", "/"), o.get("why", "")))
                 elif s.name == "bodyless":
                     fs.bodyless = True
+                elif s.name == "unclaimed":
+                    # obligations of this function that are NOT claimed (reported as unproved, never as violations)
+                    for k4 in s.arg.split():
+                        unclaimed.append("%s.%s.%s" % (unit_id, name, k4))
                 else:
                     raise ContractSyntax("unexpected @%s inside @fn at line %d" % (s.name, s.lineno))
                 i += 1
@@ -668,7 +673,7 @@ def generate(vc_path, out_dir, canary=False, lenient=False):
     text, lines_map = out.render()
     return {"unit": unit_id, "text": text, "lines": lines_map, "obligations": obligations,
             "functions": functions, "rewrites": rewrites_log, "dropped": dropped, "erasure": erasure,
-            "lost_hints": lost_hints or []}
+            "lost_hints": lost_hints or [], "unclaimed": unclaimed}
 
 
 def _has_vis(f, it):
